@@ -228,6 +228,7 @@ long Kernel::k_read(int fd, void *buf, size_t n, Owner by) {
         ret = (long)need;
         break;
     }
+    case F_PIPE_W: err = EBADF; break;   // not open for reading
     default: err = EINVAL; break;
     }
     if (log_io) ios.push_back(IoRec{R->gseq, fd, fid, false, by, ret, err, kind});
@@ -265,12 +266,15 @@ long Kernel::k_write(int fd, const void *buf, size_t n, Owner by) {
         if (n < 8) { err = EINVAL; break; }
         uint64_t v;
         memcpy(&v, buf, 8);
+        if (v == 0xffffffffffffffffULL) { err = EINVAL; break; }
+        if (f->counter + v < f->counter || f->counter + v > 0xfffffffffffffffeULL) { err = EAGAIN; break; }   // would block (all eventfds here are non-blocking)
         f->counter += v;
         hb_release(f->vc);
         ret = 8;
         break;
     }
     case F_STD: ret = (long)n; break;
+    case F_PIPE_R: err = EBADF; break;   // not open for writing
     default: err = EINVAL; break;
     }
     if (log_io) ios.push_back(IoRec{R->gseq, fd, fid, true, by, ret, err, kind});
